@@ -108,6 +108,19 @@ def rule_r1(p, res):
             hs = tr[0].handlers
             ok = body == ["%s.__dict__[k] = v.copy()" % new.id] and len(hs) == 1 and norm(hs[0].type) == "AttributeError" and [norm(x) for x in hs[0].body] == ["%s.__dict__[k] = v" % new.id]
     r.check(ok, gen, gen.node, "Copyable.copy must copy every attribute with .copy() and share only attributes that have no copy()", {"generic_copy": "attribute-wise"})
+    if ok:
+        # the copying try is reached for every attribute: it is a statement of the loop body itself, nothing leaves the iteration early,
+        # and no attribute is installed in the new object anywhere else in the loop
+        lp, t = loop[0], tr[0]
+        inside = set(id(n) for n in ast.walk(t))
+        early = [n for n in walk_own(lp) if isinstance(n, (ast.Continue, ast.Break, ast.Return)) and id(n) not in inside]
+        other = [n for n in walk_own(lp) if id(n) not in inside and (
+            (isinstance(n, ast.Subscript) and isinstance(n.ctx, ast.Store) and norm(n.value) == "%s.__dict__" % new.id)
+            or (isinstance(n, ast.Call) and (dotted(n.func) or "") == "setattr" and n.args and norm(n.args[0]) == new.id)
+            or (isinstance(n, ast.Call) and norm(n.func) == "%s.__dict__.update" % new.id))]
+        bad = (early + other) or ([lp] if not any(x is t for x in lp.body) else [])
+        r.check(not bad, gen, bad[0] if bad else gen.node, "Copyable.copy shares some attributes without trying .copy(): the attribute-wise copy is skipped (early `continue` / a store "
+                "outside the try / a conditional try), so for those values the copy aliases the original's buffer")
     n_cls = 0
     for c in copyable_classes(p):
         n_cls += 1
@@ -511,4 +524,10 @@ WITNESSES += [
     Witness("C06.W16", "menpo/image/base.py", "Image.as_greyscale", "pixels = greyscale.pixels[channel]", "pixels = self.pixels[channel]", rule="C06.R8", construct="as_greyscale", note="seeded change R5-C06-C"),
     Witness("C06.W17", "menpo/shape/graph.py", "PointTree.__init__", "root_vertex, copy=copy, skip_checks=skip_checks)", "root_vertex, copy=False, skip_checks=skip_checks)", rule="C06.G7", construct="PointTree.__init__",
             note="seeded change R5-C06-B (generic: copy=False where the caller's flag was forwarded)"),
+]
+
+WITNESSES += [
+    Witness("C06.W_R1b", "menpo/base.py", "Copyable.copy", "    try:\n            new.__dict__[k] = v.copy()",
+            "    if not getattr(getattr(v, 'flags', None), 'writeable', True):\n            new.__dict__[k] = v\n            continue\n        try:\n            new.__dict__[k] = v.copy()",
+            rule="C06.R1", construct="Copyable.copy", note="seeded change R6-C06-A (read-only arrays shared instead of copied)"),
 ]
